@@ -149,6 +149,9 @@ func (p *c05) scenario(c fw.Case) (*gen.Scenario, *fw.Rand) {
 		return findDirected(c05Lengths(), c.Directed), r
 	}
 	o := gen.ScenOpts{LoopHeavy: r.Chance(0.6), SmallOptions: r.Chance(0.7), LongTexts: r.Chance(0.6), MaxNodes: r.Range(2, 8), ContactChanges: r.Chance(0.5)}
+	if r.Chance(0.05) {
+		return gen.LoopScen(r), r // the long-history family: the resume limit is within reach of the resumes
+	}
 	return gen.Scen(r, o), r
 }
 
